@@ -7,7 +7,7 @@ R-IT-REGISTER     inside the iterative decoder the new symbol is registered in e
                   symbol of an equation).
 R-COPY-SCALE      a block copy into an array of multi-byte elements has a length that is scaled by the element size.
 """
-from .ir import Terms, strip_casts, const_of, show
+from .ir import Terms, strip_casts, const_of, show, norm_atom
 from .effects import addr_root
 from .rules_decode import IT, ML
 
@@ -164,3 +164,60 @@ def r_copy_scale(ctx, prog, units=None):
                          (f.name, show(t)[:40], s))
     if n == 0:
         ctx.ok(R, None, 'copy:none', 'no block copy or fill of an array of multi-byte elements in scope')
+
+
+def r_it_degree_only(ctx, prog):
+    """Peeling is driven by the degree of an equation alone: whether an equation gets its partial sum and whether it is registered
+    as "degree one" may depend on that equation's own counters and partial sum (and on allocation results), never on a scalar
+    member of the session (how many symbols of some kind have been received so far, ...) -- otherwise the closure reached depends
+    on the arrival order."""
+    from .ir import atoms_at
+    R = 'R-IT-DEGREE-ONLY'
+    ctx.rule(R, 'in the iterative decoder the creation of an equation\'s partial sum and its registration as a degree-one equation are '
+             'guarded by that equation\'s own counters only, not by session-wide scalar members', floor=1)
+    f = prog.need_fn(IT, R)
+    tt = Terms(f)
+    sites = []
+    for i in f.all_insts():
+        if i.op != 'store':
+            continue
+        a = tt.term(i.ops[1])
+        v = tt.term(i.ops[0])
+        r = addr_root(a)
+        if r and r[0] == 'elems' and r[1] == 'tab_const_term_of_equ' and v[0] == 'call':
+            sites.append((i, 'creates the partial sum of an equation'))
+        elif a[0] == 'elem' and a[1][0] in ('phi', 'call') and v[0] in ('load', 'load@') and v[1][0] == 'field' and v[1][2] == 'row':
+            sites.append((i, 'registers an equation as degree one'))
+    ctx.need(len(sites) >= 2, R, 'partial-sum creation / degree-one registration not recognised')
+
+    def scalar_member(t):
+        return isinstance(t, tuple) and t[0] in ('load', 'load@') and t[1][0] == 'field' and t[1][1] == ('param', 0)
+
+    def mentions_scalar(t):
+        if scalar_member(t):
+            return t[1][2]
+        if isinstance(t, tuple) and t[0] in ('bin', 'trunc', 'cmp'):
+            for x in t[1:]:
+                if isinstance(x, tuple):
+                    m = mentions_scalar(x)
+                    if m:
+                        return m
+        return None
+    for i, what in sites:
+        bad = None
+        # only what is decided inside the loop over the symbol's equations counts (entry assertions and the step-0 test dominate
+        # the whole loop and are not conditions of the peeling)
+        outer = None
+        for lp in f.loops.values():
+            if i.block.id in lp.blocks and lp.depth == 1:
+                outer = lp
+        before = [norm_atom(x) for x in atoms_at(f, tt, outer.header)] if outer is not None else []
+        for at in atoms_at(f, tt, i.block):
+            if at[0] != 'cmp' or norm_atom(at) in before:
+                continue
+            m = mentions_scalar(at[2]) or mentions_scalar(at[3])
+            if m:
+                bad = m
+        ctx.instance(R, bad is None, i, 'degree-only:%s' % i.loc().split(':')[-1],
+                     'the iterative decoder %s only when a condition on the session member %s holds: an equation that reaches degree '
+                     'one while it does not is never used, so the symbols recovered depend on the arrival order' % (what, bad))
